@@ -20,7 +20,7 @@ RULE = ("Random event dictionaries: every subset/order of data/event/id/retry; d
         "of 1-6 events through the real ASGI (virtual time, pings interleaved) and WSGI (thread relay, 20 ms pings) SendEventResponse. "
         "Non-trivial = data contains a line/paragraph separator, is empty, or starts with space/colon, or the event lacks data; distinct = "
         "(event dict, charset).")
-RULE += ' Also: text that is not in a Unicode normal form (decomposed, compatibility, singleton characters) in data, names and ids; every event that carries a retry writes it (the retry fields of the stream, in order); the same dict object yielded repeatedly, re-iterable producers served twice by one response object, data lines of 70 000 characters, a WSGI client that takes several ping intervals per chunk.'
+RULE += ' Also: two streams written at the same time by two server threads (thread switch placed between library lines); text that is not in a Unicode normal form (decomposed, compatibility, singleton characters) in data, names and ids; every event that carries a retry writes it (the retry fields of the stream, in order); the same dict object yielded repeatedly, re-iterable producers served twice by one response object, data lines of 70 000 characters, a WSGI client that takes several ping intervals per chunk.'
 ASSUMPTIONS = [
     "data that ends in a line break may arrive with or without that last break (the statement does not say whether 'a\\n' has one or two lines); never with more",
     "events without a data key dispatch nothing by the standard; for them only the id/retry side effects and 'no event fired' are checked",
@@ -53,7 +53,7 @@ def gen_event(rng, charset):
             else:
                 ev[k] = "".join(rng.choice(ALPHA) for _ in range(rng.randrange(1, 7)))
         elif k == "event":
-            ev[k] = rng.choice(["e", "", "message", "a b", " lead", "x:y", "é", "update ", "e\tf", "data", "e\u2028f", "n\x85l", "v\x0bt", "f\x0cf", "g\x1dg", "e\u0301v", "\u212bngstrom"])  # (only CR and LF end a line)
+            ev[k] = rng.choice(["e", "", "message", "a b", " lead", "x:y", "é", "update ", "e\tf", "data", "e\u2028f", "n\x85l", "v\x0bt", "f\x0cf", "g\x1dg", "e\u0301v", "\u212bngstrom", "e\x00v", "\x7f", "\x1b[0m"])  # (any character but CR and LF may be part of a name)  # (only CR and LF end a line)
         elif k == "id":
             ev[k] = rng.choice(["1", "", "a b", " 7", "é", "0", "x:y", "id", "-1", "i\u2029d", "i\x85", "\x1c9", "i\u0301", "\u2126"]) + rng.choice(["", "", str(rng.randrange(1000))])
         else:
@@ -255,6 +255,13 @@ REGRESSION = [{"data": "s" * 65528}, {"data": "s" * (131072 - 8)}, {"data": "s" 
 
 def run(ctx):
     rng = ctx.rng("c19")
+    # ---- the FIRST use in a fresh server process, pre-empted by a second request (one child process per switch point, vf/firstuse.py)
+    if ctx.shard == 0:
+        from vf import firstuse
+        firstuse.explore(ctx, "sse", "event-block", max_points=12 if ctx.quick else 400)
+        ctx.case(("first-use", "sse"))
+    else:
+        ctx.mon("first-use-pre-empted(fresh process)", 0)
     if ctx.shard == 0:
         for ev in REGRESSION:
             direct(ctx, ev, "utf-8")
@@ -360,6 +367,38 @@ def run(ctx):
         wsgi_stream(ctx, events, [0] * len(events), "utf-8", ping=5, consumer_delay=0.004)
         ctx.mon("slow-consumer")
         ctx.case(("wsgi-slow-big", i, ctx.shard))
+    # two streams written by two server threads at once (placed thread switches)
+    from vf import inflight
+    pre = inflight.Preemptor()
+    try:
+        for i in range(ctx.scale(3, 120)):
+            cs = rng.choice(CHARSETS)
+            preempted_streams(ctx, pre, [gen_event(rng, cs) for _ in range(rng.randrange(1, 4))], [gen_event(rng, cs) for _ in range(rng.randrange(1, 4))], cs)
+            ctx.case(("pre-empted-streams", i, ctx.shard))
+    finally:
+        pre.close()
+
+
+def preempted_streams(ctx, pre, evs_a, evs_b, charset):
+    """two event streams written out by two server threads at the same time: a thread switch placed between two library lines
+    of one stream's writer, the whole other stream served in between (vf/inflight.py). Each client gets its own events."""
+    from baize import asgi, wsgi
+    from vf import inflight
+
+    def wapp(environ, start_response):
+        evs = evs_b if environ["PATH_INFO"] == "/b" else evs_a
+        return wsgi.SendEventResponse(iter([dict(e) for e in evs]), ping_interval=60, charset=charset)(environ, start_response)
+
+    async def aapp(scope, receive, send):
+        evs = evs_b if scope["path"] == "/b" else evs_a
+
+        async def gen():
+            for e in evs:
+                yield dict(e)
+        await asgi.SendEventResponse(gen(), ping_interval=60, charset=charset)(scope, receive, send)
+    case = {"preempted_streams": [evs_a, evs_b], "charset": charset}
+    inflight.check_preempted(ctx, pre, "wsgi", wapp, drivers.Req(path=b"/a"), drivers.Req(path=b"/b"), "event-stream", case)
+    inflight.check_preempted(ctx, pre, "asgi", aapp, drivers.Req(path=b"/a"), drivers.Req(path=b"/b"), "event-stream", case)
 
 
 def _share(case):
@@ -380,6 +419,15 @@ def _share(case):
 
 
 def replay(ctx, case):
+    if "preempted_streams" in case:
+        from vf import inflight
+        pre = inflight.Preemptor()
+        try:
+            preempted_streams(ctx, pre, case["preempted_streams"][0], case["preempted_streams"][1], case["charset"])
+        finally:
+            pre.close()
+        ctx.case(1)
+        return
     if "event" in case:
         direct(ctx, case["event"], case["charset"])
     elif case.get("iface") == "wsgi":
